@@ -131,3 +131,102 @@ Theorem C09_clause_no_read_when_delivered : forall fuel k st lr s v item st' lr'
              (vreq v' <= nlen (g_delivered s) -> g_delivered s' = g_delivered s /\ src s' = src s).
 Proof. exact next_clause_no_read_when_delivered. Qed.
 Print Assumptions C09_clause_no_read_when_delivered.
+
+(* ------------------------------------------------------------------ *)
+(* BTOR2 and ASCII AIGER, per item (LookW.v, Btor2Look.v, AigerLook.v), every admissible run.  BTOR2 next_line: a node line
+   ends with its required line break, consumed without look-ahead (ItemLk); a line with a comment leaves the terminating
+   LF as the last byte asked for, unconsumed (AtLF; the next call's skip_whitespace passes it).  The keyword scanner —
+   8-byte fast path or byte-wise cold path — asks for nothing beyond the keyword's terminator.  ASCII AIGER: the header
+   and every section entry reader (inputs, latches, outputs, bad, constraints, justice sizes and literals, fairness,
+   and-gates, symbols) return with ItemLk.  The AIGER comment section is by format the rest of the file. *)
+From Flussab Require Import Btor2 Btor2Proofs Btor2Safe Aiger AigerProofs AigerSafe LookW Btor2Look AigerLook.
+
+Theorem C09_btor2_keyword_step_requests : forall off v w n v',
+  aruns (ascii_lowercase_u64 off) v (ADone (w, n) v') ->
+  vreq v' <= N.max (vreq v) (vcur v + off + lc_look (rest_at v off)).
+Proof. exact lc_u64_req. Qed.
+Print Assumptions C09_btor2_keyword_step_requests.
+
+Theorem C09_btor2_line_lookahead : forall fuel lr v r,
+  KB fuel lr v -> aruns (next_line fuel lr) v r ->
+  exists res lr' v', r = ADone (res, lr') v' /\ vS v' = vS v /\ vcur v <= vcur v' /\ Lk v v' /\
+    match res with
+    | Ok (Some l) => KB fuel lr' v' /\ vcur v < vcur v' /\ (if has_comment l then ItemLkB v v' else ItemLk v v')
+    | _ => True
+    end.
+Proof. exact btor2_next_line_lookahead. Qed.
+Print Assumptions C09_btor2_line_lookahead.
+
+Theorem C09_btor2_line_by_line : forall fuel lr s v l lr' s',
+  SessionB fuel lr s v -> crun (next_line fuel lr) s = CDone (Ok (Some l), lr') s' ->
+  exists v', aruns (next_line fuel lr) v (ADone (Ok (Some l), lr') v') /\
+             SessionB fuel lr' s' v' /\ Lk v v' /\ ItemLkB v v' /\
+             nlen (g_delivered s') = vcur v' + valid_len s' /\ valid_len s' <= 1 /\
+             (valid_len s' = 1 -> nnth (vS v') (vcur v') = Some 10) /\
+             (has_comment l = false -> valid_len s' = 0).
+Proof. exact btor2_next_line_line_by_line. Qed.
+Print Assumptions C09_btor2_line_by_line.
+
+Theorem C09_btor2_no_read_when_delivered : forall fuel lr s v l lr' s',
+  Rel s v -> KB fuel lr v -> crun (next_line fuel lr) s = CDone (Ok (Some l), lr') s' ->
+  exists v', aruns (next_line fuel lr) v (ADone (Ok (Some l), lr') v') /\ Rel s' v' /\ KB fuel lr' v' /\
+             ItemLkB v v' /\
+             (vreq v' <= nlen (g_delivered s) -> g_delivered s' = g_delivered s /\ src s' = src s).
+Proof. exact btor2_next_line_no_read_when_delivered. Qed.
+Print Assumptions C09_btor2_no_read_when_delivered.
+
+Theorem C09_btor2_comment_form_unfolded : forall v v',
+  (AtLF v v' <-> vcur v <= vcur v' /\ nnth (vS v) (vcur v') = Some 10 /\ vreq v' <= N.max (vreq v) (vcur v' + 1)) /\
+  (ItemLkB v v' <-> ItemLk v v' \/ AtLF v v').
+Proof. intros. split; reflexivity. Qed.
+Print Assumptions C09_btor2_comment_form_unfolded.
+
+Theorem C09_aag_header_lookahead : forall fuel (magic : bytes) maxc lr v r,
+  magic <> [] -> ~ In 10 magic -> KM fuel (vS v) lr v -> aruns (parse_aheader fuel magic maxc lr) v r ->
+  exists res lr' v', r = ADone (res, lr') v' /\ vS v' = vS v /\ vcur v <= vcur v' /\ Lk v v' /\
+    match res with
+    | Ok hd => (KM fuel (vS v) lr' v' /\ HdrOK maxc hd) /\ ItemLk v v'
+    | Err _ => True
+    end.
+Proof. exact aag_header_lookahead. Qed.
+Print Assumptions C09_aag_header_lookahead.
+
+Theorem C09_aag_literal_entry_lookahead : forall fuel {St : Type} maxc ml asg mk (st : St) lr v r,
+  KM fuel (vS v) lr v -> aruns (lit_line fuel maxc ml asg mk st lr) v r ->
+  exists res lr' v', r = ADone (res, lr') v' /\ vS v' = vS v /\ vcur v <= vcur v' /\ Lk v v' /\
+    match res with Ok x => EntryG fuel v x lr' v' /\ ItemLk v v' | Err _ => True end.
+Proof. exact @aag_entry_lookahead_lit_line. Qed.
+Print Assumptions C09_aag_literal_entry_lookahead.
+
+Theorem C09_aag_latch_lookahead : forall fuel maxc ml (st : unit) lr v r,
+  KM fuel (vS v) lr v -> aruns (aag_latch fuel maxc ml st lr) v r ->
+  exists res lr' v', r = ADone (res, lr') v' /\ vS v' = vS v /\ vcur v <= vcur v' /\ Lk v v' /\
+    match res with Ok x => EntryG fuel v x lr' v' /\ ItemLk v v' | Err _ => True end.
+Proof. exact aag_entry_lookahead_latch. Qed.
+Print Assumptions C09_aag_latch_lookahead.
+
+Theorem C09_aag_and_gate_lookahead : forall fuel maxc ml (st : unit) lr v r,
+  KM fuel (vS v) lr v -> aruns (aag_and fuel maxc ml st lr) v r ->
+  exists res lr' v', r = ADone (res, lr') v' /\ vS v' = vS v /\ vcur v <= vcur v' /\ Lk v v' /\
+    match res with Ok x => EntryG fuel v x lr' v' /\ ItemLk v v' | Err _ => True end.
+Proof. exact aag_entry_lookahead_and. Qed.
+Print Assumptions C09_aag_and_gate_lookahead.
+
+Theorem C09_aag_symbol_lookahead : forall fuel h lr v r,
+  KM fuel (vS v) lr v -> aruns (next_symbol fuel h lr) v r ->
+  exists res lr' v', r = ADone (res, lr') v' /\ vS v' = vS v /\ vcur v <= vcur v' /\ Lk v v' /\
+    match res with
+    | Ok (Some s) => KM fuel (vS v) lr' v' /\ vcur v < vcur v' /\ ItemLk v v'
+    | Ok None => KM fuel (vS v) lr' v'
+    | Err _ => True
+    end.
+Proof. exact aag_entry_lookahead_symbol. Qed.
+Print Assumptions C09_aag_symbol_lookahead.
+
+Theorem C09_aag_entry_line_by_line : forall fuel {St : Type} (m : PM (result (item * St) perr)) lr s v x lr' s',
+  EntryLook fuel m -> SessionA fuel lr s v -> crun (m lr) s = CDone (Ok x, lr') s' ->
+  exists v', aruns (m lr) v (ADone (Ok x, lr') v') /\
+             SessionA fuel lr' s' v' /\ Lk v v' /\ ItemLk v v' /\ valid_len s' = 0 /\ nlen (g_delivered s') = vcur v'.
+Proof. exact @aag_entry_line_by_line. Qed.
+Print Assumptions C09_aag_entry_line_by_line.
+
